@@ -67,6 +67,27 @@ static void sequences(std::mt19937 & rng)
   }
 }
 
+// timeout() as the very first event, and directly after another timeout(), from every initial diagnostic status (seed C18-e)
+template<class C> static void timeout_first_one(const char * kind, int st0, bool explicit_diag)
+{
+  C cd("q", 10, 1), cx("q", 10, 1, Diagnostic(static_cast<DiagnosticStatus>(st0), "initial text"));
+  C & c = explicit_diag ? cx : cd;
+  for (int k = 0; k < 2; ++k) {
+    c.timeout();
+    const DiagnosticReport r = c.getReport();
+    if (r.diagnostics.front().status != DiagnosticStatus::STALE || r.diagnostics.front().message != "q timeout." || r.info.begin()->second != "")
+      FAIL("%s check-up built with %s (status %d): after %d timeout() call(s) and no evaluation status=%d message='%s' info='%s', expected STALE 'q timeout.' ''", kind,
+        explicit_diag ? "an explicit initial diagnostic" : "the default diagnostic", st0, k + 1, (int)r.diagnostics.front().status, r.diagnostics.front().message.c_str(), r.info.begin()->second.c_str());
+  }
+}
+static void timeout_first()
+{
+  for (int st = 0; st < 4; ++st) for (int ex = 0; ex < 2; ++ex) {
+    if (!ex && st) continue;
+    timeout_first_one<CheckupEqualTo<double>>("equal-to", st, ex); timeout_first_one<CheckupGreaterThan<double>>("greater-than", st, ex); timeout_first_one<CheckupLowerThan<double>>("lower-than", st, ex);
+  }
+}
+
 static void reliability(std::mt19937 & rng)
 {
   for (int i = 0; i < 200; ++i) {
@@ -127,7 +148,7 @@ int main(int argc, char ** argv)
     for (double v : cands) if (std::isfinite(v)) classify(v, t, e);
   }
   for (int i = 0; i < 2000; ++i) { double t = (double)(rng() % 2001) / 10 - 100, e = (double)(rng() % 50) / 10; double v = t + ((double)(rng() % 2001) / 1000 - 1) * (e + 1); classify(v, t, e); }
-  sequences(rng); reliability(rng); algebra(rng);
+  sequences(rng); timeout_first(); reliability(rng); algebra(rng);
   if (fails) return 1;
   printf("no failing input found: threshold boundaries (on, one ulp below/above), evaluate/timeout sequences, status algebra and report concatenation agree with the property\n");
   return 0;
